@@ -17,7 +17,7 @@ Definition denotes (c : config) (fx : fixes) (m : segs) (mid : Z) (caps : list Z
    through Struct.Ptr but as "has pointer" through Struct.HasPtr: observation O3) *)
 Definition far_ok (m : segs) : Prop :=
   forall sid s paddr dsid dst base val raw,
-    resolveFarPointer m sid s paddr = Ok (dsid, dst, base, val) ->
+    resolveFarPointer true m sid s paddr = Ok (dsid, dst, base, val) ->
     readRawPointer s paddr = Ok raw -> raw <> 0 -> val <> 0.
 
 Definition all_fixed (fx : efix) : Prop :=
